@@ -19,6 +19,13 @@ One `Op` = one call of the public API (or one resumption of one released corouti
 arbitrary history of arrivals, departures, collector calls of each flavour, flushes in any order / at any later
 time, and handle creation / destruction.
 
+The chain walk of a collector call / of the state destructor is written twice: in closed form (`stepEmit`, `stepDrop`:
+filters over the detached chain — what the proofs use) and awaiter by awaiter as the code does it (`stepEmitLoop`,
+`stepDropLoop` — what the driver executes); `SignalProofs.stepEmit_eq_loop` / `stepDrop_eq_loop` prove them equal on
+duplicate-free chains.  Threads: a subscription takes effect at its publishing CAS and a collector call at its exchange, so a
+multi-threaded run is the operation list ordered by those points; what the subscribing thread does *after* its CAS is the
+subject of the small `Pub` model at the end of this file.
+
 Ghost state (never consulted by the control flow): `got l` (what listener `l` observed, in order), `emitted`,
 `expect l` (for a coroutine: the values emitted / cancellations issued while it was waiting — the specification
 of what it has to observe), `subAt l`, `budget c`, `pure l` (has only ever re-awaited).
